@@ -548,7 +548,11 @@ def gen_scenario(rng, focus, client=None, variant=0):
 def timed_model_line(cid, sc, q):
     """the `tq` line for the extracted timed machine (one raw query, start 0, exact timers), or None if the
     scenario uses something the translation below does not cover"""
-    if q.kind != "raw" or not valid_name(q.name) or sc.buf < 512 or "+" in sc.strategy or q.drop is not None:
+    if "+" in sc.strategy or q.drop is not None:
+        return None
+    try:
+        q.name.decode()
+    except UnicodeDecodeError:
         return None
     life = sc.life
     sends, i = [], 0
@@ -610,25 +614,48 @@ def timed_model_line(cid, sc, q):
             return None
     arr = ",".join("%d:%s" % (t, b.hex()) for (t, b) in arrivals) or "-"
     sg = ",".join("%d:%s" % (t, b.hex()) for (t, b) in segs if b) or "-"
-    return "%s tq %s %s 0 %s %d %d 0 %d %s %d %s 0 %s %s" % (cid, sc.client, sc.strategy, hx(q.name), q.qtype, q.qclass, life,
-                                                             "-" if sc.qt is None else str(sc.qt), sc.buf, arr, sg, eof)
+    return "%s tc %s %s 0 %s %d %d 0 %d %s %d %s 0 %s %s %d %s %s" % (
+        cid, sc.client, sc.strategy, hx(q.name) or "-", q.qtype, q.qclass, life, "-" if sc.qt is None else str(sc.qt),
+        sc.buf if q.kind == "raw" else 65535, arr, sg, eof, 1 if sc.rd else 0, "-" if not sc.edns else "%d:%d" % sc.edns, q.kind)
 
 
 def timed_model_vs_oracle(sc, q, model):
     """None if the extracted timed machine and the code-blind expectation agree on this scenario"""
     import re
-    m = re.match(r"S=([0-9,]*) EV=([UT]*) T=(\d+) R=(.*)$", model)
+    m0 = re.match(r"S=([0-9,]*) W=(\S+) TW=(\S+) (EV=.*)$", model)
+    if not m0:
+        return "model: " + model[:80]
+    m = re.match(r"S=([0-9,]*) EV=([UT]*) T=(\d+) R=(.*)$", "S=%s %s" % (m0.group(1), m0.group(4)))
     if not m:
         return "model: " + model[:80]
     ms = [int(x) for x in m.group(1).split(",") if x]
     e = expect_query(sc, q)
+    if e["kind"] in ("err:name", "err:BufferTooShort(512)"):
+        # refused before anything is sent
+        if ms or m.group(2) or m0.group(2) != "-" or m0.group(3) != "-" or not m.group(4).startswith("err:"):
+            return "refusal: model %s, expectation: %s and nothing sent" % (model[:80], e["kind"])
+        if e["kind"] == "err:name" and not (m.group(4).startswith("err:DomainName") or (q.kind == "raw" and sc.buf < 512 and m.group(4) == "err:BufferTooShort(512)")):
+            return "refusal: model %s, expectation %s" % (m.group(4)[:60], e["kind"])
+        if e["kind"] != "err:name" and m.group(4) != e["kind"]:
+            return "refusal: model %s, expectation %s" % (m.group(4)[:60], e["kind"])
+        return None
+    want_q = expected_query(q.name, q.qtype, q.qclass, sc.rd, sc.edns, sc.buf if q.kind == "raw" else 65535)
+    if ms and m0.group(2) != want_q.hex():
+        return "datagram on the wire: model %s, RFC layout %s" % (m0.group(2)[:120], want_q.hex()[:120])
+    if m0.group(3) != "-" and m0.group(3) != (len(want_q).to_bytes(2, "big") + want_q).hex():
+        return "TCP bytes written: model %s, RFC layout %s" % (m0.group(3)[:120], (len(want_q).to_bytes(2, "big") + want_q).hex()[:120])
+    if (m0.group(3) != "-") != bool(e["tcp"]):
+        return "TCP exchange: model wrote %s, expectation %d connection(s)" % (m0.group(3)[:20], e["tcp"])
     want_s = [i * sc.qt if sc.qt is not None else 0 for i in range(e["sends"] or 0)]
     if ms != want_s:
         return "transmissions: model %s, expectation %s" % (ms, want_s)
     ev = ("U" if not sc.strategy.startswith("tcp") else "") + ("T" if e["tcp"] else "")
     if m.group(2) != ev:
         return "exchanges: model %s, expectation %s" % (m.group(2), ev)
-    if e["kind"] == "ok":
+    if e["kind"] == "ok" and q.kind != "raw":
+        if not (m.group(4).startswith("ok:RS") or m.group(4).startswith("err:")):
+            return "typed result: model %s" % m.group(4)[:60]
+    elif e["kind"] == "ok":
         want = "ok:%d:%s" % (len(e["payload"]), e["payload"].hex() or "-")
         if m.group(4).replace(":-", ":") != want.replace(":-", ":"):
             return "result: model %s, expectation %s" % (m.group(4)[:60], want[:60])
